@@ -240,7 +240,24 @@ def c09_extra(rep, rnd, first_id):
             scn = {"type": t, "mode": {"endian": e, "align": False, "ptr": 8}, "consts": {}, "defs": A.render(t, {})}
             for data in (b"A", b"AB", b"\x00", b"\xff\x01"):
                 out.append(codec.enrich(codec.parse_record(first_id + n + len(out), scn, data, 0, r2.random() < 0.5), forms=True))
-    rid = first_id + n + 100
+    # "to the end of the stream" measured from where the structure starts, not from the stream's first byte (seed S84): arrays of
+    # every element kind, behind a header or not, at a non-zero position, on input that holds a whole number of elements
+    u8 = A.t_int("uint8")
+    pair = A.t_struct("ep", [A.field("a", u8), A.field("b", A.t_int("uint16"))])
+    upair = A.t_struct("eu", [A.field("a", u8), A.field("b", A.t_int("uint16"))], union=True)
+    e24 = A.t_enum("EE", "uint24", [("A", 1), ("B", 2)])
+    elems = [(A.t_int("uint24"), 3), (A.t_int("int48"), 6), (pair, 3), (upair, 2), (e24, 3), (A.t_arr(u8, A.L_fixed(3)), 3), (A.t_int("uint16"), 2),
+             (A.t_int("int128"), 16), (A.t_wchar(), 2), (A.t_ptr(u8), 8), (A.t_float("float"), 4)]
+    for _ in range(max(40, n // 4)):
+        elem, esz = r2.choice(elems)
+        fields = ([A.field("h", A.t_int("uint32"))] if r2.random() < 0.5 else []) + [A.field("x", A.t_arr(elem, A.L_EOF))]
+        t = A.t_struct("TOEND", fields)
+        scn = {"type": t, "mode": {"endian": r2.choice("<>"), "align": False, "ptr": 8}, "consts": {}, "defs": A.render(t, {})}
+        start = r2.randrange(0, 9)
+        body = bytes(r2.randrange(1, 256) for _ in range((4 if len(fields) == 2 else 0) + esz * r2.randrange(0, 4)))
+        out.append(codec.enrich(codec.parse_record(first_id + n + 50 + len(out), scn, bytes(r2.randrange(256) for _ in range(start)) + body, start,
+                                                   r2.random() < 0.5, both=True), forms=r2.random() < 0.3))
+    rid = first_id + n + 100 + len(out)
     for _ in range(n):
         scn = codec.gen_scenario(r2, {"eof": False})
         hs = codec.history_records(rid, scn, r2, r2.random() < 0.5)
@@ -280,6 +297,10 @@ def bitfield_family(rnd, thorough):
         seqs.add((total,))
         seqs.add((1, total - 1) if total > 1 else (1,))
         seqs.add((total, 1))
+        # wider than the storage type itself, opening a fresh unit: first member, after an exhausted unit, after another type (seed S83)
+        seqs.add((total + 1,))
+        seqs.add((total, total + 1))
+        seqs.add((1, total + rnd.randrange(1, 9)))
         for ws in sorted(seqs):
             for before in neighbours:
                 for after in (None, A.t_int("uint16")):
@@ -301,10 +322,12 @@ def bitfield_family(rnd, thorough):
 
 
 def c06_extra(rep, rnd, first_id):
+    from harness import absyn as A_
     thorough = rep.tier == "thorough"
     types = bitfield_family(rnd, thorough)
     if not thorough:
-        types = rnd.sample(types, 400)
+        wide = [t for t in types if any(f["bits"] > 8 * A_.Storage_size(f["type"]) for f in t["fields"] if f["bits"])]
+        types = rnd.sample(types, 400) + rnd.sample(wide, min(60, len(wide)))
     out = []
     for t in types:
         mode = {"endian": rnd.choice("<>"), "align": rnd.random() < 0.5, "ptr": 8}
